@@ -228,14 +228,18 @@ func (d *DeadlineChan[T]) Cancel(err error) error {
 // io.EOF rather than os.ErrDeadlineExceeded even after the deadline has expired
 func (d *DeadlineChan[T]) Close() error {
 	verifhook.At("common.DeadlineChan.Close.enter")
-	d.m.Lock()
-	defer d.m.Unlock()
-
-	if d.closed.Load() {
+	// Publish the close and cancel the deadline before taking the mutex: a Send
+	// that is blocked on a full queue holds the mutex and is only released by
+	// this cancellation.
+	if !d.closed.CompareAndSwap(false, true) {
 		return io.EOF
 	}
-	d.closed.Store(true)
 	d.deadline.Cancel(io.EOF)
+
+	// Wait for in-flight Sends to leave, so that no Send touches the queue once
+	// Close has returned.
+	d.m.Lock()
+	defer d.m.Unlock()
 	return nil
 }
 
